@@ -453,7 +453,7 @@ fn gen_case(rng: &mut Rng, s: &mut Sink, dir: &str, recsize: usize, cfg: Cfg, le
     }
     let mut last_explicit = sut.now;
     for _ in 0..len {
-        if !sut.cfg.mem && rng.chance(1, 25) {
+        if rng.chance(1, 25) {
             // a directed walk through the storage tiers: write (often with a short TTL), make it
             // durable and offloaded, read it (disk, then cache), let it expire / replace / delete it,
             // read again through every value-reading call
@@ -475,6 +475,9 @@ fn gen_case(rng: &mut Rng, s: &mut Sink, dir: &str, recsize: usize, cfg: Cfg, le
             exec(&mut sut, s, &Op::Range { a: vec![], b: vec![0xFF; 8], lim: 100 });
             exec(&mut sut, s, &Op::Advance { ns: 3_000_000_000 });
             exec(&mut sut, s, &Op::Get { k: k.clone(), bytes_api: true });
+            // both indexes once more, after every expiry in play has passed
+            exec(&mut sut, s, &Op::Range { a: vec![], b: vec![0xFF; 8], lim: 100 });
+            exec(&mut sut, s, &Op::TtlQ { k: k.clone() });
             continue;
         }
         let op = gen_op(rng, &sut, &mut last_explicit);
